@@ -116,10 +116,13 @@ theorem r_reentry_deadlocks_with_writer (p q : List Instr) :
   rcases ht with h | h <;> subst h <;> simp [next, anyWriter, anyHolder, s]
 
 /-- **The source is flat.** Every call into user code reachable from an exported Broker method is
-made without Broker.lock, nowhere in the library is a lock acquired while already held, and no
-exported function returns on any path with a lock still held (no leaked lock). -/
+made without Broker.lock and without any other lock of the library (a call-back handed to an inlined
+helper such as the pipeline map's `Range` counts the helper's locks: a read lock held there would
+wedge a re-entering root node against a waiting writer, `r_reentry_deadlocks_with_writer`), nowhere in
+the library is a lock acquired while already held, and no exported function returns on any path with
+a lock still held (no leaked lock). -/
 theorem on_source :
-    (Evl.Generated.brokerCallbacks.all (fun c => c.brokerLock == 0)) = true ∧
+    (Evl.Generated.brokerCallbacks.all (fun c => c.brokerLock == 0 && c.otherLocks == 0)) = true ∧
     Evl.Generated.nestedAcquisitions = 0 ∧
     -- no exported function of the library can return with one of its locks still held
     Evl.Generated.lockLeaks = 0 ∧
